@@ -126,8 +126,8 @@ Lemma node_length_pb_cons d l ls :
   node_length (Pb d (l :: ls)) =
   let from_links := match link_sizes (node_meta d) 0 (l :: ls) with
                     | Ok sizes => Ok (fold_right Z.add 0%Z sizes)
-                    | Err EUnmodelled => Err EUnmodelled
-                    | _ => Ok 0%Z
+                    | Err e => Err e
+                    | Panic => Err EOther
                     end in
   match node_meta d with
   | Some m => match d_filesize m with Some fs => Ok (i64 fs) | None => from_links end
